@@ -281,13 +281,13 @@ def lens_integrand_pointwise(c):
 
 
 @contract("C08", "integral_evaluation_mode", [TH + "mielensfunctions:MieLensCalculator._eval_mielens_i_n"],
-          bounded="radial arrays of 1, 2 and 5 points", max_paths=600)
+          bounded="radial arrays of 1, 2 and 3 points", max_paths=600)
 def integral_evaluation_mode(c):
     """the radial pupil integrals are evaluated either directly or through the interpolator, never anything else and never an error:
     interpolate_integrals=True -> interpolated, False -> direct, 'check' (the default) -> interpolated exactly when
     degree * (max krho - min krho) / window < 1.1 * number of points; the result is that evaluation's, unchanged, for both integrals"""
     mode = c.choice("interpolate_integrals", ["check", True, False])
-    npts = c.choice("points", [1, 2, 5])
+    npts = c.choice("points", [1, 2, 3])
     n = c.choice("integral", [0, 2])
     A = (lambda v: np.array(v, dtype=object if c.symbolic else float))
     kr = [c.real("krho%d" % i, nonneg=True, sample=(0, 200)) for i in range(npts)]
